@@ -169,6 +169,23 @@ def run(facts, R):
     end_signal_rule(facts, R)
     handler_token_rule(facts, R)
     ctx_passed_through_rule(facts, R)
+    # "with a peer registry attached, the peer and its aliases are present from connect until then and absent afterwards": the
+    # disconnect hook removes the peer through PeerRegistry::remove, which purges aliases through the reverse index - so the
+    # aliases are gone afterwards (and listed while connected) only if alias() / remove() keep the forward map and the reverse
+    # index in step.  C18's alias-pairing / alias-order rules decide that (shared)
+    from analysis import report as _report18
+    from rules import C18 as _c18
+    sub18 = _report18.Report(R.prop, R.tier, R.config)
+    try:
+        _c18.run(facts, sub18)
+    except Exception as e:
+        sub18.bad("anchor-resolution", "<crate>", "shared-C18-rules", "the shared alias-consistency rules could not run: %s" % e)
+    for inst in sub18.instances:
+        if inst["rule"] in ("alias-pairing", "alias-order") and inst["verdict"] == "holds":
+            R.instances.append(inst)
+    for v in sub18.violations:
+        if v["rule"] in ("alias-pairing", "alias-order", "anchor-resolution"):
+            R.bad("registry-aliases-consistent", v["fn"], v["what"], v["msg"], v.get("site"), v.get("path"))
 
     # ---------------- registry-pairing / hooks-before-reader -------------------------------------------------------
     hooks = [(i, t) for i, t in hc.calls() if t["callee"]["name"] == "call" and "on_connect" in render(s.op(t["args"][0]))]
